@@ -3184,6 +3184,8 @@ CALSCALE:GREGORIAN\n";
 
 	/* tell the bufferer we want to write to WHITHER */
 	fdbang(whither);
+	/* a fresh start for WHITHER */
+	(void)fdfailed(whither);
 	/* definitely the head of the header */
 	fdwrite(hdr, strlenof(hdr));
 
@@ -3224,7 +3226,7 @@ CALSCALE:GREGORIAN\n";
 	return;
 }
 
-void
+int
 echs_icalify_fini(int whither)
 {
 	static const char ftr[] = "\
@@ -3236,7 +3238,8 @@ END:VCALENDAR\n";
 	fdwrite(ftr, strlenof(ftr));
 	/* that's the last thing in line, just send it off */
 	fdflush();
-	return;
+	/* and let them know if anything has gone missing on the way */
+	return fdfailed(whither);
 }
 
 /* evical.c ends here */
